@@ -373,7 +373,7 @@ def _flat(op):
 # ------------------------------------------------------------------------------------------------
 NEUTRAL_HOPS = {"mark_complete": "HMarkComplete", "mark_canceled": "HMarkCanceled",
                 "update_job_status": "(HUpdate 0 0 [])", "complete_hpc_job_id": "(HCompleteHpc 0)",
-                "prepare_for_resubmission": "(HPrepMutate 0)", "serialize": "HSerialize",
+                "prepare_for_resubmission": "(HPrepare 0)", "serialize": "HSerialize",
                 "serialize_jobs": "HSerializeJobs", "deserialize_jobs": "HReloadJobs",
                 "promote_to_submitter": "HPromote", "demote_from_submitter": "HDemote"}
 
